@@ -11,6 +11,10 @@ from .. import env
 env.setup()
 import asyncstdlib as a  # noqa: E402
 
+
+async def _report_hook(*args):
+    """a coroutine function handed to a manager factory as its argument"""
+
 PROPERTY = "C15"
 LEVEL = "exploration"
 RULE = (
@@ -61,6 +65,7 @@ def configs(draw, tier):
             "fn_flavour": draw(st.sampled_from(["async", "async", "def-coro"])),
             # (kind gen) the generator function returns a complete, but not a native, asynchronous generator
             "gen_wrap": draw(st.sampled_from([False, False, True])),
+            "factory_arg": draw(st.sampled_from(["tag", "tag", "corofn"])),
             "choices": draw(st.lists(st.integers(0, 3), max_size=40))}
 
 
@@ -83,7 +88,7 @@ def run_config(case, impl, choices=None, default="rr"):
         t, c = who()
         log.append((t, c, event, extra))
 
-    async def gen_manager(tag):
+    async def gen_manager(tag=None):
         gid = len(gen_ids)
         gen_ids.append(gid)
         note("enter", gid)
@@ -148,7 +153,9 @@ def run_config(case, impl, choices=None, default="rr"):
     if case["kind"] == "gen":
         maker = (a.contextmanager if impl == "a" else contextlib.asynccontextmanager)(
             forwarding(gen_manager) if case.get("gen_wrap") else gen_manager)
-        deco = maker("tag")
+        # the one argument of the factory may well be a coroutine function itself (an async report hook): it is an
+        # argument, not something to decorate
+        deco = maker(_report_hook if case.get("factory_arg") == "corofn" else "tag")
     elif case["kind"] == "class-recreate":
         deco = RecreatingManager()
     elif case["kind"] == "class-aw":
